@@ -100,6 +100,9 @@ pub struct DelegCase {
     /// the default body (and the required methods) must not run
     #[serde(default)]
     pub then_answer_after: u8,
+    /// the provided method has a type parameter (`fn d<T: 'static>(..)`, called as `d::<u8>`)
+    #[serde(default)]
+    pub generic_method: bool,
 }
 
 /// response of required method m for argument x (a known function, so results can be predicted)
@@ -204,6 +207,11 @@ pub fn source(c: &DelegCase) -> String {
     } else {
         ""
     };
+    let (dgen, dwt, dturbo, dparam, darg, dans) = if c.generic_method {
+        ("<T: 'static + std::fmt::Debug>", ".with_types::<u8>()", "::<u8>", ", _t: T", ", 7u8", ", _")
+    } else {
+        ("", "", "", "", "", "")
+    };
     let rd = recv_decl(c.recv);
     let rd_req = if c.recv == Recv::PinMut {
         "self: std::pin::Pin<&mut Self>"
@@ -211,7 +219,7 @@ pub fn source(c: &DelegCase) -> String {
         rd
     };
     s.push_str(&format!(
-        "#[unimock(api=M)]\npub trait Tr{sized} {{\n    fn r0({rd_req}, x: u32) -> u32;\n    fn r1({rd_req}, x: u32) -> u32;\n    fn d({rd}, a: u32, b: u32) -> u32 {{\n{}    }}\n}}\n\n",
+        "#[unimock(api=M)]\npub trait Tr{sized} {{\n    fn r0({rd_req}, x: u32) -> u32;\n    fn r1({rd_req}, x: u32) -> u32;\n    fn d{dgen}({rd}, a: u32, b: u32{dparam}) -> u32 {{\n{}    }}\n}}\n\n",
         body_source(c)
     ));
     s.push_str("pub fn run() -> String {\n");
@@ -243,14 +251,14 @@ pub fn source(c: &DelegCase) -> String {
         .count();
     if let Some(k) = c.default_body_calls() {
         clauses.push(format!(
-            "M::d.each_call(&|m| m.func(|_, _| true)).applies_default_impl().n_times({k}).then().answers(&|_, _, _| 424242u32)"
+            "M::d{dwt}.each_call(&|m| m.func(|_, _| true)).applies_default_impl().n_times({k}).then().answers(&|_, _, _{dans}| 424242u32)"
         ));
     } else if c.explicit_default_impl && delegated > 0 && !c.ordered {
         clauses.push(format!(
-            "M::d.each_call(&|m| m.func(|_, _| true)).applies_default_impl().n_times({delegated})"
+            "M::d{dwt}.each_call(&|m| m.func(|_, _| true)).applies_default_impl().n_times({delegated})"
         ));
         if c.later_answering_clause {
-            clauses.push("M::d.each_call(&|m| m.func(|_, _| true)).answers(&|_, _, _| 424242u32)".to_string());
+            clauses.push(format!("M::d{dwt}.each_call(&|m| m.func(|_, _| true)).answers(&|_, _, _{dans}| 424242u32)"));
         }
     }
     s.push_str("    let mut dc = unimock::verif::DynClause::new();\n");
@@ -285,7 +293,7 @@ pub fn source(c: &DelegCase) -> String {
         };
         let call = match op {
             Op::Direct(m, x) => format!("<Unimock as Tr>::r{m}({recv}, {x}u32)"),
-            Op::Delegated(a, b) => format!("<Unimock as Tr>::d({recv}, {a}u32, {b}u32)"),
+            Op::Delegated(a, b) => format!("<Unimock as Tr>::d{dturbo}({recv}, {a}u32, {b}u32{darg})"),
         };
         // by-value / sole-owner receivers consume the mock: `h` is moved by the last call
         if matches!(c.recv, Recv::Value) || (matches!(c.recv, Recv::RcSole | Recv::ArcSole) && last)
@@ -380,6 +388,7 @@ pub fn judge(c: &DelegCase, line: &str) -> Result<CaseInfo, String> {
         Recv::PinMut => "recv:Pin<&mut Self>",
     })
     .class_if(c.partial, "partial-mock")
+    .class_if(c.generic_method, "provided-method-has-a-type-parameter")
     .class_if(c.ordered, "required:ordered")
     .class_if(!c.ordered, "required:unordered")
     .class_if(
@@ -436,9 +445,9 @@ pub fn case_strategy() -> impl Strategy<Value = DelegCase> {
         any::<bool>(),
         proptest::bool::weighted(0.4),
         any::<bool>(),
-        prop_oneof![2 => Just(0u8), 1 => 1..8u8],
+        (prop_oneof![2 => Just(0u8), 1 => 1..8u8], proptest::bool::weighted(0.3)),
     )
-        .prop_map(|(recv, mut body, mut history, ordered, explicit_default_impl, partial, later_answering_clause, then_answer_after)| {
+        .prop_map(|(recv, mut body, mut history, ordered, explicit_default_impl, partial, later_answering_clause, (then_answer_after, generic_method))| {
             if recv == Recv::Value {
                 // a by-value receiver is consumed by the first call it is passed to
                 body.calls.truncate(1);
@@ -447,7 +456,7 @@ pub fn case_strategy() -> impl Strategy<Value = DelegCase> {
                 }
                 history.truncate(1);
             }
-            DelegCase { recv, body, history, ordered, explicit_default_impl, partial, later_answering_clause, then_answer_after }
+            DelegCase { recv, body, history, ordered, explicit_default_impl, partial, later_answering_clause, then_answer_after, generic_method }
         })
 }
 
